@@ -509,7 +509,13 @@ class DPTComplex(DPTBase, Generic[_ComplexDataT]):
                     if not isinstance(octet, int) or not 0 <= octet <= 255:
                         raise ValueError(f"Invalid octet in payload: {octet!r}")
             return payload
-        except (ValueError, TypeError, AttributeError, ConversionError) as err:
+        except (
+            ValueError,
+            TypeError,
+            AttributeError,
+            OverflowError,  # eg. int() of an infinite field value
+            ConversionError,
+        ) as err:
             raise ConversionError(
                 f"Could not serialize {cls.dpt_name()}: {err}", value=value
             ) from err
